@@ -1,8 +1,10 @@
 package main
 
 import (
+	"fmt"
 	"math"
 	"strconv"
+	"strings"
 
 	"golang.org/x/tools/go/ssa"
 )
@@ -48,6 +50,9 @@ func init() {
 		s := args[0].(*Str)
 		c, ok := s.Concrete()
 		if !ok {
+			if s.Kind == sBytes {
+				return in.parseDecimalText(s.B), true
+			}
 			panic(pathKilled{"outside the encoding: strconv.ParseFloat on symbolic text"})
 		}
 		f, err := strconv.ParseFloat(c, 64)
@@ -58,6 +63,9 @@ func init() {
 	})
 	reg("strconv.FormatFloat", func(in *Interp, fn *ssa.Function, args []value) (value, bool) {
 		f := args[0].(*Flt)
+		if f.IsSym && f.Dec != nil {
+			return in.formatDec(f, byte(args[1].(*Term).Uint()), in.concreteInt(args[2], "prec")), true
+		}
 		if f.IsSym {
 			panic(pathKilled{"outside the encoding: strconv.FormatFloat on a symbolic double (digit generation)"})
 		}
@@ -114,4 +122,226 @@ func init() {
 	for _, n := range []string{"internal/stringslite.Clone", "strings.Clone", "strconv.cloneString"} {
 		reg(n, func(in *Interp, fn *ssa.Function, args []value) (value, bool) { return args[0], true })
 	}
+}
+
+// formatDec: strconv.FormatFloat on a double given by its shortest decimal (digit generation itself is strconv's and
+// outside the encoding; the layouts are Go's documented ones).
+//
+//	'e', -1: d.ddde±XX            'f', -1: positional, no exponent
+//	'g', 17: the value rounded to 17 significant digits in %e layout (only met where 'e' was chosen); it has the
+//	         same number of digits as the shortest form only if it is the same digits
+//	'f', 0 : the exact integer value; rounding it to the shortest form's digit count gives the shortest form
+func (in *Interp) formatDec(f *Flt, fmtc byte, prec int) *Str {
+	d, E := f.Dec.Digits, f.Dec.E
+	n := len(d)
+	ch := func(c byte) *Term { return byteConst[c] }
+	var out []*Term
+	zeros := func(k int) {
+		for i := 0; i < k; i++ {
+			out = append(out, ch('0'))
+		}
+	}
+	eForm := func(ds []*Term) {
+		out = append(out, ds[0])
+		if len(ds) > 1 {
+			out = append(out, ch('.'))
+			out = append(out, ds[1:]...)
+		}
+		out = append(out, ch('e'))
+		e := E
+		if e < 0 {
+			out = append(out, ch('-'))
+			e = -e
+		} else {
+			out = append(out, ch('+'))
+		}
+		t := strconv.Itoa(e)
+		if len(t) < 2 {
+			t = "0" + t
+		}
+		for i := 0; i < len(t); i++ {
+			out = append(out, ch(t[i]))
+		}
+	}
+	freshDigit := func(name string) *Term {
+		t := in.newSym(8, name)
+		in.assert(And(ULe(ch('0'), t), ULe(t, ch('9'))))
+		return t
+	}
+	switch {
+	case fmtc == 'e' && prec == -1:
+		eForm(d)
+	case fmtc == 'f' && prec == -1:
+		switch {
+		case E < 0:
+			out = append(out, ch('0'), ch('.'))
+			zeros(-E - 1)
+			out = append(out, d...)
+		case n <= E+1:
+			out = append(out, d...)
+			zeros(E + 1 - n)
+		default:
+			out = append(out, d[:E+1]...)
+			out = append(out, ch('.'))
+			out = append(out, d[E+1:]...)
+		}
+	case fmtc == 'g' && prec == 17:
+		if n == 17 || in.branch(in.newSym(0, "g17-same-digits")) {
+			eForm(d)
+		} else {
+			ds := make([]*Term, 17)
+			for i := range ds {
+				ds[i] = freshDigit(fmt.Sprintf("g17_%d", i))
+			}
+			eForm(ds)
+		}
+	case fmtc == 'f' && prec == 0 && E >= 0 && n <= E+1:
+		// exact integer value: E+1 digits
+		if n == E+1 {
+			out = append(out, d...)
+			break
+		}
+		out = append(out, d[:n-1]...)
+		last, next := freshDigit("fix_last"), freshDigit("fix_next")
+		in.assert(Or(And(Eq(last, d[n-1]), ULt(next, ch('5'))), And(Eq(Add(last, BVu(8, 1)), d[n-1]), ULe(ch('5'), next))))
+		out = append(out, last, next)
+		for i := n + 1; i < E+1; i++ {
+			out = append(out, freshDigit(fmt.Sprintf("fix_%d", i)))
+		}
+	default:
+		panic(pathKilled{fmt.Sprintf("outside the encoding: strconv.FormatFloat(%c, %d) on a double given by its shortest decimal", fmtc, prec)})
+	}
+	return &Str{Kind: sBytes, B: out}
+}
+
+// decFloat: the double with shortest decimal digits x 10^E (first digit's exponent E); see FloatFromDecimal.
+func (in *Interp) decFloat(digits []*Term, E int, neg bool) *Flt {
+	if E < -300 || E > 307 || len(digits) > 15 {
+		panic(pathKilled{"outside the encoding: decimal number outside 15 digits / exponent -300..307"})
+	}
+	bits := in.newSym(64, "f64")
+	lo, _ := strconv.ParseFloat(fmt.Sprintf("1e%d", E), 64)
+	hi, _ := strconv.ParseFloat(fmt.Sprintf("1e%d", E+1), 64)
+	in.assert(ULe(BVu(64, math.Float64bits(lo)), bits))
+	in.assert(ULt(bits, BVu(64, math.Float64bits(hi))))
+	// the nearest double of 10^E is the one whose shortest decimal is the single digit 1
+	isPow := Eq(bits, BVu(64, math.Float64bits(lo)))
+	if len(digits) == 1 {
+		in.assert(Eq(isPow, Eq(digits[0], byteConst['1'])))
+	} else {
+		in.assert(Not(isPow))
+	}
+	if neg {
+		bits = BXor(bits, BVu(64, 1<<63))
+	}
+	return &Flt{IsSym: true, Bits: bits, Dec: &DecView{Digits: digits, E: E}}
+}
+
+// parseDecimalText: strconv.ParseFloat on a byte-precise text whose symbolic bytes are decimal digits (a symbolic
+// byte that may be something else ends the path as outside the encoding): [sign] digits [. digits] [e|E [sign] digits].
+func (in *Interp) parseDecimalText(b []*Term) value {
+	syntaxErr := func() value {
+		return Tuple{&Flt{}, in.mkErrorf("strconv.ParseFloat: invalid syntax")}
+	}
+	isDigit := func(t *Term) bool {
+		if t.Const {
+			c := byte(t.Uint())
+			return c >= '0' && c <= '9'
+		}
+		if !in.branch(And(ULe(byteConst['0'], t), ULe(t, byteConst['9']))) {
+			panic(pathKilled{"outside the encoding: strconv.ParseFloat on a symbolic non-digit byte"})
+		}
+		return true
+	}
+	isC := func(t *Term, cs string) bool {
+		return t.Const && strings.IndexByte(cs, byte(t.Uint())) >= 0
+	}
+	i, neg := 0, false
+	if i < len(b) && isC(b[i], "+-") {
+		neg = byte(b[i].Uint()) == '-'
+		i++
+	}
+	var mant []*Term
+	point, sawDigits := -1, false
+	for i < len(b) {
+		if isC(b[i], ".") {
+			if point >= 0 {
+				return syntaxErr()
+			}
+			point = len(mant)
+			i++
+			continue
+		}
+		if isC(b[i], "eE") {
+			break
+		}
+		if b[i].Const && !isDigit(b[i]) {
+			// letters (inf, nan, hex prefixes), underscores: the real parser decides on concrete text only
+			panic(pathKilled{"outside the encoding: strconv.ParseFloat on a partly symbolic text with non-decimal characters"})
+		}
+		isDigit(b[i])
+		mant = append(mant, b[i])
+		sawDigits = true
+		i++
+	}
+	if !sawDigits {
+		return syntaxErr()
+	}
+	if point < 0 {
+		point = len(mant)
+	}
+	exp := 0
+	if i < len(b) { // exponent part, concrete
+		i++
+		esign := 1
+		if i < len(b) && isC(b[i], "+-") {
+			if byte(b[i].Uint()) == '-' {
+				esign = -1
+			}
+			i++
+		}
+		if i >= len(b) {
+			return syntaxErr()
+		}
+		for ; i < len(b); i++ {
+			if !b[i].Const {
+				panic(pathKilled{"outside the encoding: symbolic exponent digits"})
+			}
+			c := byte(b[i].Uint())
+			if c < '0' || c > '9' {
+				return syntaxErr()
+			}
+			if exp < 100000 {
+				exp = exp*10 + int(c-'0')
+			}
+		}
+		exp *= esign
+	}
+	isZero := func(t *Term) bool {
+		if t.Const {
+			return byte(t.Uint()) == '0'
+		}
+		return in.branch(Eq(t, byteConst['0']))
+	}
+	for len(mant) > 0 && isZero(mant[0]) {
+		mant = mant[1:]
+		point--
+	}
+	for len(mant) > 0 && isZero(mant[len(mant)-1]) {
+		mant = mant[:len(mant)-1]
+	}
+	if len(mant) == 0 {
+		if neg {
+			return Tuple{&Flt{C: math.Copysign(0, -1)}, Iface{}}
+		}
+		return Tuple{&Flt{}, Iface{}}
+	}
+	allConst := true
+	for _, t := range mant {
+		allConst = allConst && t.Const
+	}
+	if allConst {
+		panic(engineErr("parseDecimalText on concrete text"))
+	}
+	return Tuple{in.decFloat(mant, point-1+exp, neg), Iface{}}
 }
